@@ -845,6 +845,24 @@ func (sc *Scope) trCall(x ECall) (Term, types.Type) {
 		}
 		dn, _, ds, _ := env.mapHeaps(t)
 		return Select(Select(sc.heap(dn, ds), m), k), tBool
+	case "dom":
+		// dom(m): the key set of a Go map as a ghost set (map[K]bool)
+		m, t := sc.Tr(x.Args[0])
+		mt, ok := t.Underlying().(*types.Map)
+		if !ok {
+			sfail("dom() on non-map")
+		}
+		dn, _, ds, _ := env.mapHeaps(t)
+		return Select(sc.heap(dn, ds), m), types.NewMap(mt.Key(), tBool)
+	case "mapput":
+		// mapput(g, k, v): the ghost map g with g[k] = v
+		g, t := sc.Tr(x.Args[0])
+		k, _ := sc.Tr(x.Args[1])
+		v, _ := sc.Tr(x.Args[2])
+		if !strings.HasPrefix(string(g.Sort), "(Array") {
+			sfail("mapput() on a non-ghost map")
+		}
+		return Store(g, k, v), t
 	case "implements":
 		a, _ := sc.Tr(x.Args[0])
 		tt := x.Args[1].(ETypeTag)
